@@ -84,8 +84,88 @@ ActAdd == 0  ActChat == 1  ActGameMode == 2  ActListed == 3  ActLatency == 4
 ActDisplayName == 5  ActListOrder == 6  ActHat == 7
 NumActions(v) == IF v >= P1_21_4 THEN 8 ELSE IF v >= P1_21_2 THEN 7 ELSE 6
 
-\* a chat component is a JSON string before 1.20.3 and a nameless NBT tag since; the body is opaque
-ComponentField(v, body) == IF v >= P1_20_3 THEN F("raw", body) ELSE F("string", body)
+(* Chat components.  Before 1.20.3 (and always in the login state) a component travels as a
+   JSON string, whose text stays opaque here.  Since 1.20.3 it is a nameless network NBT tag;
+   the proxy builds it from the component it means, and how (string tag or compound, key
+   order) is its choice, so such a field is not compared byte by byte: it is DECODED by the
+   NBT reader below and the decoded tag must mean the component.  A meant component is
+   [text |-> bytes, extra |-> <<components>>]. *)
+U16At(b, o) == b[o + 1] * 256 + b[o + 2]                       \* o = number of bytes before
+U32At(b, o) == ((b[o + 1] * 256 + b[o + 2]) * 256 + b[o + 3]) * 256 + b[o + 4]   \* < 2^31 assumed
+NbtFixed(ty) == CASE ty = 1 -> 1 [] ty = 2 -> 2 [] ty = 3 -> 4 [] ty = 4 -> 8 [] ty = 5 -> 4 [] ty = 6 -> 8
+NbtVal(ty, str, kids) == [ty |-> ty, s |-> str, kids |-> kids]  \* kids: <<[k |-> name, v |-> value]>>
+
+(* Reads the payload of a tag of type ty that starts after the first o bytes of b.
+   Result [ok, v, n]: n = number of bytes of b before the first unread byte. *)
+RECURSIVE NbtPayload(_, _, _)
+NbtPayload(b, o, ty) ==
+    IF ty \in 1..6 THEN
+        IF o + NbtFixed(ty) > Len(b) THEN Fail ELSE Ok(NbtVal(ty, <<>>, <<>>), o + NbtFixed(ty))
+    ELSE IF ty = 8 THEN
+        IF o + 2 > Len(b) \/ o + 2 + U16At(b, o) > Len(b) THEN Fail
+        ELSE Ok(NbtVal(8, SubSeq(b, o + 3, o + 2 + U16At(b, o)), <<>>), o + 2 + U16At(b, o))
+    ELSE IF ty \in {7, 11, 12} THEN
+        IF o + 4 > Len(b) \/ b[o + 1] >= 128 THEN Fail
+        ELSE LET n == o + 4 + U32At(b, o) * (IF ty = 7 THEN 1 ELSE IF ty = 11 THEN 4 ELSE 8) IN
+             IF n > Len(b) THEN Fail ELSE Ok(NbtVal(ty, <<>>, <<>>), n)
+    ELSE IF ty = 9 THEN
+        IF o + 5 > Len(b) \/ b[o + 2] >= 128 THEN Fail
+        ELSE LET et == b[o + 1]
+                 cnt == U32At(b, o + 1)
+                 RECURSIVE L(_, _, _)
+                 L(k, off, acc) ==
+                     IF k = 0 THEN Ok(NbtVal(9, <<>>, acc), off)
+                     ELSE LET d == NbtPayload(b, off, et) IN
+                          IF ~d.ok THEN Fail ELSE L(k - 1, d.n, Append(acc, [k |-> <<>>, v |-> d.v]))
+             IN IF cnt > Len(b) \/ (cnt > 0 /\ et = 0) THEN Fail ELSE L(cnt, o + 5, <<>>)
+    ELSE IF ty = 10 THEN
+        LET RECURSIVE C(_, _)
+            C(off, acc) ==
+                IF off + 1 > Len(b) THEN Fail
+                ELSE IF b[off + 1] = 0 THEN Ok(NbtVal(10, <<>>, acc), off + 1)
+                ELSE LET nm == NbtPayload(b, off + 1, 8) IN
+                     IF ~nm.ok THEN Fail
+                     ELSE LET d == NbtPayload(b, nm.n, b[off + 1]) IN
+                          IF ~d.ok THEN Fail ELSE C(d.n, Append(acc, [k |-> nm.v.s, v |-> d.v]))
+        IN C(o, <<>>)
+    ELSE Fail
+
+\* network form since 1.20.2: type byte, no name, payload
+NbtRoot(b, o) == IF o + 1 > Len(b) THEN Fail ELSE NbtPayload(b, o + 1, b[o + 1])
+
+kText  == <<116, 101, 120, 116>>            \* text
+kExtra == <<101, 120, 116, 114, 97>>        \* extra
+Keys(v) == {v.kids[i].k : i \in DOMAIN v.kids}
+Get(v, key) == v.kids[CHOOSE i \in DOMAIN v.kids : v.kids[i].k = key].v
+
+(* The decoded tag means component c: a string tag with the text (no children), or a compound
+   whose `text` is a STRING tag with exactly the text, whose `extra` (present iff c has
+   children) is a list whose elements mean the children in order, and nothing else.  A list
+   element may be boxed as {"": element} (how vanilla stores mixed lists). *)
+RECURSIVE Means(_, _)
+Means(v, c) ==
+    \/ v.ty = 8 /\ c.extra = <<>> /\ v.s = c.text
+    \/ /\ v.ty = 10 /\ Keys(v) = {<<>>} /\ Len(v.kids) = 1
+       /\ Means(v.kids[1].v, c)
+    \/ /\ v.ty = 10
+       /\ Len(v.kids) = Cardinality(Keys(v))                                 \* no key twice
+       /\ Keys(v) = (IF c.extra = <<>> THEN {kText} ELSE {kText, kExtra})
+       /\ Get(v, kText).ty = 8 /\ Get(v, kText).s = c.text
+       /\ c.extra # <<>> =>
+             LET x == Get(v, kExtra) IN
+             /\ x.ty = 9 /\ Len(x.kids) = Len(c.extra)
+             /\ \A i \in DOMAIN c.extra : Means(x.kids[i].v, c.extra[i])
+
+\* the encoding this spec would choose (compound form); only used to check the reader above
+RECURSIVE NbtCompPayload(_)
+NbtCompPayload(c) ==
+    <<8>> \o EncUTF(kText) \o EncUTF(c.text) \o
+    (IF c.extra = <<>> THEN <<>>
+     ELSE <<9>> \o EncUTF(kExtra) \o <<10>> \o EncI32(Len(c.extra)) \o ConcatMap(NbtCompPayload, c.extra)) \o
+    <<0>>
+EncNbtComp(c) == <<10>> \o NbtCompPayload(c)
+
+ComponentField(v, json, comp) == IF v >= P1_20_3 THEN F("nbtcomp", comp) ELSE F("string", json)
 
 ActionFields(a, v, e) ==
     CASE a = ActAdd         -> <<F("string", e.name), F("props", e.props)>>
@@ -94,7 +174,7 @@ ActionFields(a, v, e) ==
       [] a = ActGameMode    -> <<F("varint", e.gm)>>
       [] a = ActListed      -> <<F("bool", e.listed)>>
       [] a = ActLatency     -> <<F("varint", e.lat)>>
-      [] a = ActDisplayName -> IF e.hasDn THEN <<F("bool", TRUE), ComponentField(v, e.dn)>>
+      [] a = ActDisplayName -> IF e.hasDn THEN <<F("bool", TRUE), ComponentField(v, e.dn, e.dnc)>>
                                ELSE <<F("bool", FALSE)>>
       [] a = ActListOrder   -> <<F("varint", e.order)>>
       [] a = ActHat         -> <<F("bool", e.hat)>>
@@ -150,7 +230,7 @@ Fields(pkt, v, f) ==
             (IF v < P1_8 THEN <<F("bytes17", f.data)>> ELSE <<F("raw", f.data)>>)
       [] pkt = "disconnect" ->
             \* the login state keeps JSON text for every protocol
-            <<IF f.st = "login" THEN F("string", f.body) ELSE ComponentField(v, f.body)>>
+            <<IF f.st = "login" THEN F("string", f.body) ELSE ComponentField(v, f.body, f.comp)>>
       [] pkt = "keepalive" ->
             IF v >= P1_12_2 THEN <<F("i64", f.id)>>
             ELSE IF v >= P1_8 THEN <<F("varint", I32OfLimbs(f.id))>>
@@ -178,6 +258,7 @@ EncField(fl) ==
       [] fl.t = "bool"    -> EncBool(fl.x)
       [] fl.t = "uuid"    -> EncUUID(fl.x)
       [] fl.t = "props"   -> EncProps(fl.x)
+      [] fl.t = "nbtcomp" -> EncNbtComp(fl.x)
 
 Layout(pkt, v, f) == ConcatMap(EncField, Fields(pkt, v, f))
 
@@ -201,8 +282,24 @@ DecField(t, b, len) ==
 RoundTripOn(fs, bytes) ==
     LET RECURSIVE G(_, _)
         G(i, off) == IF i > Len(fs) THEN off = Len(bytes)
+                     ELSE IF fs[i].t = "nbtcomp"
+                       THEN LET d == NbtRoot(bytes, off) IN d.ok /\ Means(d.v, fs[i].x) /\ G(i + 1, d.n)
                      ELSE LET d == DecField(fs[i].t, Drop(bytes, off), IF fs[i].t = "raw" THEN Len(fs[i].x) ELSE 0)
                           IN d.ok /\ d.v = fs[i].x /\ G(i + 1, off + d.n)
+    IN G(1, 0)
+
+(* The judgement: `bytes` is the packet body of the fields fs.  Every field but an NBT
+   component has one encoding and must appear byte for byte; an NBT component must decode
+   to a tag that means it; nothing may follow the last field. *)
+Matches(fs, bytes) ==
+    LET RECURSIVE G(_, _)
+        G(i, off) == IF i > Len(fs) THEN off = Len(bytes)
+                     ELSE IF fs[i].t = "nbtcomp"
+                       THEN LET d == NbtRoot(bytes, off) IN d.ok /\ Means(d.v, fs[i].x) /\ G(i + 1, d.n)
+                     ELSE LET e == EncField(fs[i]) IN
+                          /\ off + Len(e) <= Len(bytes)
+                          /\ SubSeq(bytes, off + 1, off + Len(e)) = e
+                          /\ G(i + 1, off + Len(e))
     IN G(1, 0)
 RoundTrip(pkt, v, f) == RoundTripOn(Fields(pkt, v, f), Layout(pkt, v, f))
 
@@ -219,19 +316,22 @@ UpsertVs == IF Thorough THEN From(761) ELSE {761, 765, 768, 769, 776} \cap Versi
 
 Sh(pkt, v, a, b, c, d, e, g) == [pkt |-> pkt, v |-> v, p |-> <<a, b, c, d, e, g>>]
 
-StrLens == {0, 1, 127, 128}
+\* component texts: ordinary sentences and words, and texts that look like SNBT numbers,
+\* booleans or malformed numbers ("404", "-1", "1b", "0.5", "true", "1.21.4", "1e3", "" ...);
+\* the harness holds the list, the class is its index
+TextClasses == 0..23
 Perms == {0, 1, 2}          \* supply order: canonical, reversed, rotated by 3 (with one action supplied twice)
 
 Shapes ==
     \* handshake: address length, port, next state, protocol field
     {Sh("handshake", v, a, b, c, d, 0, 0) : v \in {4, 776} \cap Vs, a \in {0, 1, 127, 128, 255},
-                                           b \in {0, 25565, 32768, 65535}, c \in {1, 2, 3}, d \in {-1, 4, 47, 776}} \cup
+                                           b \in {0, 25565, 32768, 65535}, c \in {1, 2, 3}, d \in {-1, 47, 776}} \cup
     \* loginstart: name length, key present, holder present
     {Sh("loginstart", v, a, b, c, 0, 0, 0) : v \in Vs, a \in {1, 16}, b \in {0, 1}, c \in {0, 1}} \cup
     \* loginsuccess: name length, properties, bit i of c = property i signed, uuid class
     {Sh("loginsuccess", v, a, b, c, d, 0, 0) : v \in Vs, a \in {1, 16}, b \in {0, 1, 2}, c \in {0, 1, 2}, d \in {0, 1, 2}} \cup
     \* encreq: server id length, key length, token length, shouldAuthenticate
-    {Sh("encreq", v, a, b, c, d, 0, 0) : v \in Vs, a \in {0, 20}, b \in {0, 127, 128, 162, 294}, c \in {0, 4, 16}, d \in {0, 1}} \cup
+    {Sh("encreq", v, a, b, c, d, 0, 0) : v \in Vs, a \in {0, 20}, b \in {0, 128, 162, 294}, c \in {0, 4, 16}, d \in {0, 1}} \cup
     \* encresp: secret length, token/signature length, salt present
     {Sh("encresp", v, a, b, c, 0, 0, 0) : v \in Vs, a \in {0, 127, 128}, b \in {0, 128, 256}, c \in {0, 1}} \cup
     {Sh("compression", v, a, 0, 0, 0, 0, 0) : v \in From(47), a \in {-1, 0, 127, 128, 256, 16383, 16384, 2097151, 2097152}} \cup
@@ -243,9 +343,12 @@ Shapes ==
     {Sh("plugin", v, a, b, 0, 0, 0, 0) : v \in {4, 5, 47, 393} \cap Vs, a \in IF Thorough THEN {0, 5} ELSE {5},
                                         b \in IF Thorough THEN {32767, 32768, 40000, 65535, 65536, 100000}
                                                           ELSE {32767, 32768, 65536}} \cup
-    \* disconnect: state 0 login 1 play 2 config, text length
-    {Sh("disconnect", v, a, b, 0, 0, 0, 0) : v \in Vs, a \in {0, 1}, b \in {0, 5, 200}} \cup
-    {Sh("disconnect", v, 2, b, 0, 0, 0, 0) : v \in From(764), b \in {0, 5, 200}} \cup
+    \* disconnect: state 0 login 1 play 2 config, text class, children
+    \*   (JSON era and login state: the text is opaque, three classes suffice)
+    {Sh("disconnect", v, a, b, 0, 0, 0, 0) : v \in Vs, a \in {0, 1}, b \in {0, 2, 9}} \cup
+    {Sh("disconnect", v, 2, b, 0, 0, 0, 0) : v \in From(764), b \in {0, 2, 9}} \cup
+    {Sh("disconnect", v, 1, b, c, 0, 0, 0) : v \in From(765), b \in TextClasses, c \in {0, 2}} \cup
+    {Sh("disconnect", v, 2, b, 0, 0, 0, 0) : v \in From(765), b \in TextClasses} \cup
     \* keep-alive / status ping: id class
     {Sh("keepalive", v, a, 0, 0, 0, 0, 0) : v \in Vs, a \in 0..8} \cup
     {Sh("statusreq", v, 0, 0, 0, 0, 0, 0) : v \in {4, 776} \cap Vs} \cup
@@ -257,6 +360,8 @@ Shapes ==
     {Sh("upsert", v, a, b, 1, d, 0, 0) : v \in UpsertVs, a \in 0..255, b \in Perms, d \in IF Thorough THEN {0, 7} ELSE {6}} \cup
     {Sh("upsert", v, a, b, c, d, 0, 0) : v \in UpsertVs, a \in {0, 1, 3, 34, 63, 127, 255}, b \in {0, 1}, c \in {0, 2},
                                         d \in {0, 3, 7, 9}} \cup
+    \* upsert with a display name of every text class (add player + display name), children
+    {Sh("upsert", v, 33, 0, 1, 2, e, g) : v \in UpsertVs, e \in TextClasses, g \in {0, 2}} \cup
     {Sh("transfer", v, a, b, 0, 0, 0, 0) : v \in From(766), a \in {1, 127, 128, 255}, b \in {0, 25565, 65535}}
 
 \* the action mask must only use actions the protocol has
